@@ -246,6 +246,9 @@ class Driver(object):
             kw.setdefault("factory", RecConn)
             c = sqlite3.connect(path, *a, **kw)
             drv._conns_made = [x for x in drv._conns_made if getattr(x, "_mbh_role", None)][-4:] + [c]
+            # durable changes are looked for at the start of every SQL statement as well: a commit
+            # need not go through Connection.commit() (`with db:`, executescript, autocommit mode)
+            c.set_trace_callback(lambda stmt: drv._on_commit())
             if os.path.abspath(str(path)) == os.path.abspath(drv.chan_path):
                 c._mbh_role = "channel"
             elif drv.usage_path and os.path.abspath(str(path)) == os.path.abspath(drv.usage_path):
@@ -415,8 +418,17 @@ class Driver(object):
 
     def _on_commit(self):
         st = self._step
-        if st is None or st["last"] is None:
+        if st is None or st["last"] is None or self._in_hook:
             return
+        self._in_hook = True
+        try:
+            self._on_commit2(st)
+        finally:
+            self._in_hook = False
+
+    _in_hook = False
+
+    def _on_commit2(self, st):
         cur = self.read_disk()
         if cur != st["last"]:
             st["last"] = cur
@@ -449,6 +461,7 @@ class Driver(object):
         except Exception:
             d = {"type": "?undecodable"}
         ty = d.get("type")
+        self._on_commit()
         f = frame0(to=cname, type=ty if isinstance(ty, str) else "?", ci=len(st["tr"]),
                    synced=self._synced())
         ok = isinstance(ty, str) and isinstance(d.get("server_tx"), float)
